@@ -1,17 +1,24 @@
-"""Engine registry: property id -> run(ctx); LEVELS: property id -> evidence level."""
+"""Engine registry. Every module in this package registers its properties with @register(prop, claim=...).
+
+claim = dict(category, design_ref, text, note, technique) is what lib/mkmanifest.py writes into MANIFEST.json.
+"""
 import importlib
+import pkgutil
 
 REGISTRY = {}
 LEVELS = {}
+CLAIMS = {}
 
 
-def register(prop, level):
+def register(prop, level=None, claim=None):
     def deco(fn):
         REGISTRY[prop] = fn
-        LEVELS[prop] = level
+        LEVELS[prop] = level or claim["category"]
+        if claim is not None:
+            CLAIMS[prop] = claim
         return fn
     return deco
 
 
-for _m in ["cycle"]:
+for _m in sorted(m.name for m in pkgutil.iter_modules(__path__)):
     importlib.import_module("engines." + _m)
